@@ -912,6 +912,166 @@ theorem strchr_total (m : Mem) (s : Nat) (ch : Int) (l : List Byte) (fuel : Nat)
         fun _ => ⟨p, rest, e, hp, rfl⟩⟩
     · exact ⟨_, strchr_absent m s ch l fuel h hin hz hf, fun h' => absurd h' hz, fun _ _ => rfl, fun h' => absurd h' hin⟩
 
+/-- memrchr is TOTAL on a mapped n-byte object: NULL exactly when the byte does not occur, otherwise
+the pointer to its LAST occurrence -/
+theorem memrchr_total (m : Mem) (s : Nat) (c : Int) (l : List Byte) (hl : Holds m s l) :
+    ∃ r, memrchr m s c l.length = some r ∧ (r = none ↔ toChar c ∉ l) ∧
+      (toChar c ∈ l → ∃ p rest, l = p ++ toChar c :: rest ∧ toChar c ∉ rest ∧ r = some (s + p.length)) := by
+  by_cases hc : toChar c ∈ l
+  · obtain ⟨p, rest, e, hp⟩ := last_split hc
+    have hr : memrchr m s c l.length = some (some (s + p.length)) := by
+      have := memrchr_found m s c p rest (by rw [← e]; exact hl) hp
+      rwa [← e] at this
+    exact ⟨_, hr, ⟨fun h => by simp at h, fun h => absurd hc h⟩, fun _ => ⟨p, rest, e, hp, rfl⟩⟩
+  · exact ⟨none, memrchr_absent m s c l hl hc, ⟨fun _ => hc, fun _ => rfl⟩, fun h => absurd h hc⟩
+
+/-- strrchr is TOTAL on a C string, for every `int` ch: the terminator when `(char)ch == 0`, the LAST
+occurrence when the character occurs, NULL otherwise -/
+theorem strrchr_total (m : Mem) (s : Nat) (ch : Int) (l : List Byte) (fuel : Nat) (h : CStr m s l)
+    (hf : l.length + 1 < fuel) :
+    ∃ r, strrchr m s ch fuel = some r ∧
+      (toChar ch = 0#8 → r = some (s + l.length)) ∧
+      (toChar ch ≠ 0#8 → toChar ch ∉ l → r = none) ∧
+      (toChar ch ∈ l → ∃ p rest, l = p ++ toChar ch :: rest ∧ toChar ch ∉ rest ∧ r = some (s + p.length)) := by
+  by_cases hz : toChar ch = 0#8
+  · refine ⟨_, strrchr_terminator m s ch l fuel h hz (by omega), fun _ => rfl, fun h' => absurd hz h', fun hin => ?_⟩
+    exact absurd (hz ▸ hin) h.2
+  · by_cases hin : toChar ch ∈ l
+    · obtain ⟨p, rest, e, hp⟩ := last_split hin
+      have := strrchr_found m s ch p rest fuel (by rw [← e]; exact h) hp (by rw [← e]; exact hf)
+      exact ⟨_, this, fun h' => absurd h' hz, fun _ hn => absurd hin hn, fun _ => ⟨p, rest, e, hp, rfl⟩⟩
+    · exact ⟨_, strrchr_absent m s ch l fuel h hin hz (by omega), fun h' => absurd h' hz, fun _ _ => rfl,
+        fun h' => absurd h' hin⟩
+
+/-- strlen is TOTAL in the sense of its definition: for ANY mapped byte array that contains a NUL the
+result is the index of the first one, and nothing behind it is read -/
+theorem strlen_first_nul (m : Mem) (s : Nat) (l : List Byte) (fuel : Nat) (h : Holds m s l) (h0 : 0#8 ∈ l)
+    (hf : l.length < fuel) :
+    ∃ p rest, l = p ++ 0#8 :: rest ∧ 0#8 ∉ p ∧ strlen m s fuel = some p.length := by
+  obtain ⟨p, rest, e, hp⟩ := first_split h0
+  refine ⟨p, rest, e, hp, ?_⟩
+  have hc : CStr m s p := by
+    refine ⟨?_, hp⟩
+    rw [e, show p ++ 0#8 :: rest = (p ++ [0#8]) ++ rest by simp, holds_append] at h; exact h.1
+  have : p.length < fuel := by have := congrArg List.length e; simp at this; omega
+  exact strlen_spec m s p fuel hc this
+
+/-! closed forms: for EVERY pair of C strings the result is a `takeWhile` of the list -/
+
+/-- strspn in closed form, for EVERY pair of C strings: the length of the longest prefix made of bytes of the set -/
+theorem strspn_closed (m : Mem) (s accept : Nat) (A l : List Byte) (fuel : Nat)
+    (hA : CStr m accept A) (h : CStr m s l) (hf : A.length < fuel) (hg : l.length < fuel) :
+    strspn m s accept fuel = some (l.takeWhile (fun x => decide (x ∈ A))).length := by
+  obtain ⟨e, hq, hr⟩ := span_spec (fun x => decide (x ∈ A)) l
+  have hq' : ∀ y ∈ l.takeWhile (fun x => decide (x ∈ A)), y ∈ A := fun y hy => by simpa using hq y hy
+  generalize l.takeWhile (fun x => decide (x ∈ A)) = q at *
+  have hlen : q.length ≤ l.length := by have := congrArg List.length e; simp at this; omega
+  have h0 : 0#8 ∉ q := fun e0 => h.2 (by rw [e]; exact List.mem_append_left _ e0)
+  cases hd : l.dropWhile (fun x => decide (x ∈ A)) with
+  | nil =>
+    rw [hd, List.append_nil] at e; subst e
+    exact strspn_spec m s accept A l 0#8 fuel hA h.1 h0 hq' (Or.inl rfl) hf hg
+  | cons x r =>
+    have hx : x ∉ A := by simpa using hr x r hd
+    rw [hd] at e
+    have g : Holds m s (q ++ [x]) := by
+      have := h.1
+      rw [e, show q ++ x :: r ++ [0#8] = (q ++ [x]) ++ (r ++ [0#8]) by simp, holds_append] at this
+      exact this.1
+    exact strspn_spec m s accept A q x fuel hA g h0 hq' (Or.inr hx) hf (by omega)
+
+/-- strcspn in closed form: the length of the longest prefix free of bytes of the set -/
+theorem strcspn_closed (m : Mem) (s reject : Nat) (R l : List Byte) (fuel : Nat)
+    (hR : CStr m reject R) (h : CStr m s l) (hf : R.length < fuel) (hg : l.length < fuel) :
+    strcspn m s reject fuel = some (l.takeWhile (fun x => decide (x ∉ R))).length := by
+  obtain ⟨e, hq, hr⟩ := span_spec (fun x => decide (x ∉ R)) l
+  have hq' : ∀ y ∈ l.takeWhile (fun x => decide (x ∉ R)), y ∉ R := fun y hy => by simpa using hq y hy
+  generalize l.takeWhile (fun x => decide (x ∉ R)) = q at *
+  have hlen : q.length ≤ l.length := by have := congrArg List.length e; simp at this; omega
+  have h0 : 0#8 ∉ q := fun e0 => h.2 (by rw [e]; exact List.mem_append_left _ e0)
+  cases hd : l.dropWhile (fun x => decide (x ∉ R)) with
+  | nil =>
+    rw [hd, List.append_nil] at e; subst e
+    exact strcspn_spec m s reject R l 0#8 fuel hR h.1 h0 hq' (Or.inl rfl) hf hg
+  | cons x r =>
+    have hx : x ∈ R := by simpa using hr x r hd
+    rw [hd] at e
+    have g : Holds m s (q ++ [x]) := by
+      have := h.1
+      rw [e, show q ++ x :: r ++ [0#8] = (q ++ [x]) ++ (r ++ [0#8]) by simp, holds_append] at this
+      exact this.1
+    exact strcspn_spec m s reject R q x fuel hR g h0 hq' (Or.inr hx) hf (by omega)
+
+/-- strpbrk in closed form: NULL when no byte of the string is in the set, otherwise the pointer
+behind the longest prefix free of the set -/
+theorem strpbrk_closed (m : Mem) (s1 s2 : Nat) (A l : List Byte) (fuel : Nat)
+    (hA : CStr m s2 A) (h : CStr m s1 l) (hf : A.length < fuel) (hg : l.length < fuel) :
+    strpbrk m s1 s2 fuel = some (if (l.dropWhile (fun x => decide (x ∉ A))).isEmpty then none
+      else some (s1 + (l.takeWhile (fun x => decide (x ∉ A))).length)) := by
+  obtain ⟨e, hq, hr⟩ := span_spec (fun x => decide (x ∉ A)) l
+  have hq' : ∀ y ∈ l.takeWhile (fun x => decide (x ∉ A)), y ∉ A := fun y hy => by simpa using hq y hy
+  generalize l.takeWhile (fun x => decide (x ∉ A)) = q at *
+  have hlen : q.length ≤ l.length := by have := congrArg List.length e; simp at this; omega
+  have h0 : 0#8 ∉ q := fun e0 => h.2 (by rw [e]; exact List.mem_append_left _ e0)
+  cases hd : l.dropWhile (fun x => decide (x ∉ A)) with
+  | nil =>
+    rw [hd, List.append_nil] at e; subst e
+    simpa using strpbrk_absent m s1 s2 A l fuel hA h hq' hf hg
+  | cons x r =>
+    have hx : x ∈ A := by simpa using hr x r hd
+    rw [hd] at e
+    have g : Holds m s1 (q ++ [x]) := by
+      have := h.1
+      rw [e, show q ++ x :: r ++ [0#8] = (q ++ [x]) ++ (r ++ [0#8]) by simp, holds_append] at this
+      exact this.1
+    simpa using strpbrk_found m s1 s2 A q x fuel hA g h0 hq' hx hf (by omega)
+/-- strstr with the first matching position known -/
+theorem strstr_first_match (m : Mem) (haystack needle : Nat) (nd l : List Byte) (fuel k : Nat)
+    (hH : CStr m haystack l) (hN : CStr m needle nd) (hf : l.length < fuel)
+    (hk : k ≤ l.length) (hm : nd <+: l.drop k) (hfirst : ∀ i, i < k → ¬ nd <+: l.drop i) :
+    strstr m haystack needle fuel = some (some (haystack + k)) := by
+  cases nd with
+  | nil =>
+    have : k = 0 := by
+      cases k with
+      | zero => rfl
+      | succ j => exact absurd (List.nil_prefix) (hfirst 0 (by omega))
+    subst this
+    simpa using strstr_empty_needle m haystack needle fuel (cstr_nil.mp hN)
+  | cons b nd' =>
+    obtain ⟨t, ht⟩ := hm
+    have el : l = l.take k ++ (b :: nd') ++ t := by
+      rw [List.append_assoc, ht, List.take_append_drop]
+    have hpl : (l.take k).length = k := by simp [Nat.min_eq_left hk]
+    have := strstr_found m haystack needle (b :: nd') (l.take k) t fuel (by rw [← el]; exact hH) hN (by simp)
+      (by rw [← el, hpl]; exact hfirst) (by rw [← el]; exact hf)
+    rw [hpl] at this; exact this
+
+/-- strstr is TOTAL on two C strings (the needle may be empty, longer than the haystack, or match only
+at the very end): NULL exactly when the needle is a prefix of no suffix of the haystack, otherwise the
+pointer to the FIRST position where it is -/
+theorem strstr_total (m : Mem) (haystack needle : Nat) (nd l : List Byte) (fuel : Nat)
+    (hH : CStr m haystack l) (hN : CStr m needle nd) (hf : l.length < fuel) :
+    ∃ r, strstr m haystack needle fuel = some r ∧
+      (r = none ↔ ∀ i, i ≤ l.length → ¬ nd <+: l.drop i) ∧
+      (∀ k, r = some (haystack + k) → k ≤ l.length → (nd <+: l.drop k ∧ ∀ i, i < k → ¬ nd <+: l.drop i)) := by
+  by_cases hex : ∃ k, k ≤ l.length ∧ nd <+: l.drop k
+  · obtain ⟨k0, hk0⟩ := hex
+    obtain ⟨k, ⟨hk, hm⟩, hmin⟩ := exists_least (fun k => k ≤ l.length ∧ nd <+: l.drop k) k0 hk0
+    have hfirst : ∀ i, i < k → ¬ nd <+: l.drop i := fun i hi hp => hmin i hi ⟨by omega, hp⟩
+    refine ⟨_, strstr_first_match m haystack needle nd l fuel k hH hN hf hk hm hfirst, ?_, ?_⟩
+    · constructor
+      · intro h; simp at h
+      · intro h; exact absurd hm (h k hk)
+    · intro k' hk' _
+      have : k' = k := by simp at hk'; omega
+      subst this; exact ⟨hm, hfirst⟩
+  · have hno : ∀ i, i ≤ l.length → ¬ nd <+: l.drop i := fun i hi hp => hex ⟨i, hi, hp⟩
+    have hne : nd ≠ [] := fun e => hno 0 (by omega) (by rw [e]; exact List.nil_prefix)
+    refine ⟨none, strstr_absent m haystack needle nd l fuel hH hN hne (fun i hi => hno i (by omega)) hf, ?_, ?_⟩
+    · exact ⟨fun _ => hno, fun _ => rfl⟩
+    · intro k hk; simp at hk
+
 /-! ### strtok / strtok_r HISTORIES (round 3; audit item 4).  A sequence of calls on one
 string — the first with the string, the later ones with NULL, call i with its
 own delimiter string `ds[i]` (contents `Ds[i]`; the sets may change from call
